@@ -1194,3 +1194,215 @@ def model_pair(cfg, obs, E, edges=None):
         return None
     fn = {"lines": "enc_lines", "xvar": "enc_lines", "hist": "enc_hist", "heat": "enc_heat"}[cfg["mode"]]
     return f"{fn} {sp}", canonical(cfg, obs, E, edges)
+
+
+# ------------------------------------------------------------------------------------------ the check
+def directed(rng, mode, pred, tries=400):
+    for _ in range(tries):
+        cfg = gen_case(rng, mode)
+        if pred(cfg):
+            return cfg
+    return None
+
+
+def nonuniform(cfg):
+    b = cfg.get("bins")
+    return isinstance(b, list) and len({round(y - x, 9) for x, y in zip(b, b[1:])}) > 1
+
+
+def directed_cases(rng, tier):
+    """Inputs aimed at the places where a slip would hide (they run before the random stream)."""
+    k = 3 if tier == "quick" else 12
+    props = lambda cfg: {m["prop"] for m in cfg["maps"]}
+    sz = lambda cfg, p: next((math.prod(cfg["sizes"][d] for d in m["dims"]) for m in cfg["maps"] if m["prop"] == p), 1)
+    finite = lambda cfg: sum(v is not None for v in cfg["vals"]) >= 4
+    wanted = []
+    wanted += [("hist", lambda c: nonuniform(c) and c["bins_density"] and c["maps"] and finite(c) and c["nan"] in ("none", "scatter"))] * (2 * k)
+    wanted += [("hist", lambda c: nonuniform(c) and not c["bins_density"] and finite(c))] * k
+    wanted += [("hist", lambda c: c.get("bins") is None and finite(c))] * k
+    wanted += [("hist", lambda c: isinstance(c.get("bins"), int) and finite(c))] * k
+    wanted += [("lines", lambda c: {"row", "col"} <= props(c) and sz(c, "row") == sz(c, "col") >= 2 and c["nan"] in ("none", "scatter") and finite(c))] * (2 * k)
+    wanted += [("lines", lambda c: {"row", "col"} <= props(c) and sz(c, "row") != sz(c, "col") and finite(c))] * k
+    wanted += [("heat", lambda c: {"row", "col"} <= props(c) and sz(c, "row") == sz(c, "col") >= 2 and c["nan"] in ("none", "scatter"))] * k
+    wanted += [("heat", lambda c: any(len(m["dims"]) > 1 for m in c["maps"]) and finite(c))] * k
+    wanted += [("lines", lambda c: len(props(c) & {"hue", "color", "marker", "markersize", "linestyle", "linewidth"}) >= 3 and finite(c))] * (2 * k)
+    wanted += [("lines", lambda c: {"hue", "color"} <= props(c) and finite(c))] * k
+    wanted += [("lines", lambda c: c["nan"] == "outside-order" and sum(m["order"] is not None for m in c["maps"]) >= 1 and len(c["maps"]) >= 2 and finite(c))] * (2 * k)
+    wanted += [("lines", lambda c: c["jam"] and c["nan"] in ("scatter", "mixed") and finite(c))] * k
+    wanted += [("xvar", lambda c: c["maps"] and finite(c))] * k
+    for er in (None, 0.5, 0.0, 1.0, 0.8, "std", "stderr"):
+        for st in ("band", "bars"):
+            wanted.append(("lines", lambda c, er=er, st=st: c["agg"] is not None and c.get("agg_err") == er
+                           and (c.get("err_style") or "band") == st and finite(c)))
+    wanted += [("hist", lambda c: c["maps"] and not Expect(c).binned)] * 2          # the known defect
+    out = []
+    for mode, pred in wanted:
+        cfg = directed(rng, mode, pred)
+        if cfg is not None:
+            cfg["stream"] = "directed"
+            out.append(cfg)
+    return out
+
+
+def n_expected_artists(cfg, E):
+    try:
+        if cfg["mode"] in ("lines", "xvar"):
+            return len(expected_lines(E))
+        return len(E.combos())
+    except Exception:
+        return 0
+
+
+def call_text(cfg):
+    args, kw = I.call_args(cfg)
+    def r(v):
+        if isinstance(v, np.ndarray):
+            return "np.array(" + repr(v.tolist()) + ")"
+        return repr(v)
+    return "ds.xyz.infiniplot(" + ", ".join([repr(a) for a in args] + [f"{k}={r(v)}" for k, v in kw.items()]) + ")"
+
+
+def dataset_text(cfg):
+    dv = {cfg["var"]: cfg["vals"]}
+    if cfg.get("xvals") is not None:
+        dv[cfg["xvar"]] = cfg["xvals"]
+    return (f"dims={cfg['names']} sizes={cfg['sizes']} coords={cfg['coords']}; variables (row-major, None = NaN): "
+            + "; ".join(f"{k}={v}" for k, v in dv.items()))
+
+
+def replay_dict(cfg, obs):
+    return {"config": cfg, "call": call_text(cfg), "dataset": dataset_text(cfg),
+            "observed": {k: obs.get(k) for k in ("error", "message", "where", "shape", "pure")}}
+
+
+def evaluate(c, cfg, pairs, metas):
+    """One case: run the implementation, the oracle, and prepare the model comparison."""
+    E = Expect(cfg)
+    obs = I.observe(cfg)
+    try:
+        bad, info = oracle(cfg, obs, E)
+    except Exception as e:   # a bug of the harness must not pass silently
+        c.obligation_broken("harness: the oracle raised", {"error": f"{type(e).__name__}: {e}", "config": cfg})
+        return
+    nexp = n_expected_artists(cfg, E)
+    nontrivial = (not info.get("degenerate")) and (
+        nexp >= 2 or any(m["order"] is not None or len(m["dims"]) > 1 for m in cfg["maps"]) or any(v is None for v in cfg["vals"]))
+    sample = {"call": call_text(cfg), "sizes": dict(zip(cfg["names"], cfg["sizes"])), "nan_pattern": cfg["nan"],
+              "missing_values": sum(v is None for v in cfg["vals"]), "expected_artists": nexp,
+              "figure_shape": obs.get("shape"), "outcome": obs.get("error", "degenerate" if info.get("degenerate") else "ok")}
+    c.case(signature(cfg), nontrivial=nontrivial, sample=sample)
+    c.count("mode", cfg["mode"])
+    c.count("ndims", len(cfg["sizes"]))
+    c.count("mapped_groups", len(cfg["maps"]))
+    for m in cfg["maps"]:
+        c.count("property", m["prop"])
+        c.count("fused", len(m["dims"]) > 1)
+        c.count("explicit_order", m["order"] is not None)
+    c.count("nan_pattern", cfg["nan"])
+    c.count("palette", cfg.get("palette") is not None)
+    c.count("stream", cfg.get("stream", "random"))
+    if cfg["mode"] in ("lines", "xvar"):
+        c.count("join_across_missing", bool(cfg["jam"]))
+        a = cfg.get("agg")
+        c.count("aggregate", "off" if a is None else ("True" if a is True else "list"))
+        if a is not None:
+            c.count("aggregate_err_range", str(cfg.get("agg_err")))
+            c.count("err_style", str(cfg.get("err_style")))
+    if cfg["mode"] == "hist":
+        b = cfg.get("bins")
+        c.count("bins", "None" if b is None else ("int" if isinstance(b, int) else ("non-uniform" if nonuniform(cfg) else "uniform")))
+        c.count("bins_density", bool(cfg.get("bins_density", True)))
+    c.count("outcome", "degenerate (nothing to draw)" if info.get("degenerate") else obs.get("error", "ok"))
+    for key, msg in bad:
+        c.violation(key, msg, replay_dict(cfg, obs))
+    if info.get("degenerate") or "error" in obs:
+        return
+    try:
+        mp = model_pair(cfg, obs, E, info.get("edges"))
+    except Exception as e:
+        c.obligation_broken("harness: canonicalisation raised", {"error": f"{type(e).__name__}: {e}", "config": cfg})
+        return
+    if mp is None:
+        c.count("model_comparison", "skipped (edges not multiples of 1/8 or no iteration order)")
+        return
+    c.count("model_comparison", "done")
+    pairs.append(mp)
+    metas.append((cfg, obs, bool(bad)))
+
+
+def run(tier, seed):
+    c = core.Check("C18", tier, seed)
+    gen = core.regen()
+    b = core.build(PROP_FILE)
+    g = gen.get("GenInfini", {"ok": False, "detail": "unit GenInfini is not registered"})
+    c.cov["translator"] = g
+    c.cov["build"] = {"ok": b["ok"], "failed_file": b["failed_file"], "wall_s": round(b.get("wall_s", 0), 1)}
+    if not g["ok"]:
+        c.obligation_broken("translator GenInfini", g["detail"])
+    if not b["ok"]:
+        c.obligation_broken(f"Coq build of {b['failed_file']}", b["log_tail"][-1200:])
+    search = "thorough" if (c.broken or tier == "thorough") else "quick"
+    n_random = 900 if search == "quick" else (11000 if tier == "thorough" else 4000)
+    pairs, metas = [], []
+    cases = directed_cases(c.rng, search)
+    for _ in range(n_random):
+        cases.append(gen_case(c.rng))
+    for cfg in cases:
+        evaluate(c, cfg, pairs, metas)
+    model_ok = os.path.exists(os.path.join(core.COQ, "Model", "Infini.vo"))
+    nbad = 0
+    if model_ok:
+        bad, _ = core.safe_run_cases(c, IMPORTS, pairs, chunk=150)
+        nbad = len(bad)
+        for i in bad:
+            cfg, obs, oracle_unhappy = metas[i]
+            if not oracle_unhappy:
+                c.obligation_broken("correspondence Model/Infini.v vs infiniplot.py",
+                                    {"call": call_text(cfg), "dataset": dataset_text(cfg), "config": cfg,
+                                     "iteration_order": obs.get("iter_dims"), "model": pairs[i][0][:1500],
+                                     "observed": json.dumps(pairs[i][1])[:1500]})
+    else:
+        c.obligation_broken("model evaluation: Model/Infini.vo is missing", b.get("log_tail", "")[-400:])
+    c.cov["disagreements_checked"] = nbad
+    c.cov["model_comparisons"] = len(pairs)
+    c.cov["exhaustive"] = False
+    c.notes.append("degenerate cases (no finite value inside the explicit orders, or a single distinct value with default "
+                   "bins) are generated and run but nothing is required of them: there is nothing to draw")
+    c.notes.append("histogram cases whose default edges are not multiples of 1/8 are checked by the oracle (floats, "
+                   "tolerance 1e-9) but not compared with the integer model")
+    c.notes.append("aggregation statistics, error bands / bars, heat-map colours without a palette, bin centres: "
+                   "numeric TESTS (tolerance), not theorems")
+    c.assumptions = [
+        "at least one finite value lies inside the explicit orders (otherwise there is nothing to draw and matplotlib "
+        "refuses a 0 x 0 grid)",
+        "each dimension is mapped to at most one property (injective assignment); explicit orders list existing, "
+        "distinct labels; histogram bin edges are strictly increasing",
+        "coordinates of a dimension are distinct; all finite data values are distinct (so artists identify slices)",
+        "numpy / xarray / matplotlib behave as observed (differential test); Dataset.sizes order is read from the "
+        "implementation",
+    ]
+    return c.finish(b, PROP_FILE, TRUSTED, RULE)
+
+
+def replay(path):
+    r = json.load(open(path))
+    if "replay" not in r or "config" not in r.get("replay", {}):
+        print(json.dumps(r, indent=1, default=str)[:4000])
+        return 1
+    cfg = r["replay"]["config"]
+    print("dataset:", dataset_text(cfg))
+    print("call   :", call_text(cfg))
+    E = Expect(cfg)
+    obs = I.observe(cfg)
+    bad, info = oracle(cfg, obs, E)
+    if "error" in obs:
+        print("raised :", obs["error"], obs["message"], obs["where"])
+    else:
+        print("figure :", obs["shape"], "panels;",
+              sum(len([l for l in P["lines"] if not is_cap(l)]) for row in obs["panels"] for P in row), "lines;",
+              sum(len(P["meshes"]) for row in obs["panels"] for P in row), "meshes")
+    for k, m in bad:
+        print("FAILS:", k, "--", m)
+    if not bad:
+        print("no violation on this input")
+    return 1 if bad else 0
